@@ -129,6 +129,10 @@ def models(tier, seed):
                     {"name": "Wr", "methods": [M("poke", "mut", ("u32", "bool")), M("emit", "ref", ("cb",), "bool"),
                                                 M("outp", "mut", ("pp", "u32"), "u32"), M("next", "ref", ("u8", "cpp"), "bool")]}],
          "objects": [("Rd", "Box", ""), ("Rd", "Ref", ""), ("Rd", "Mut", "Arc"), ("Wr", "Box", "Arc"), ("Wr", "Mut", "")], "groups": []},
+        {"id": "group_named_container", "prefix": None,
+         "traits": [{"name": "Base", "methods": [M("id", "ref", (), "u32"), M("bump", "mut", ("u32",), "u32")]},
+                    {"name": "Extra", "methods": [M("more", "ref", ("u64", "u8"), "u64")]}],
+         "objects": [], "groups": [("ItemContainer", ["Base", "Extra"], "Box", "Arc"), ("Pack", ["Base"], "Box", "")]},
         {"id": "group_box_arc", "prefix": None,
          "traits": [{"name": "Base", "methods": [M("id", "ref", (), "u32"), M("bump", "mut", ("u32",), "u32")]},
                     {"name": "Extra", "methods": [M("more", "ref", ("u64", "u8"), "u64"), M("eat", "own", ("u32",), "u32"),
@@ -188,7 +192,15 @@ def fn_sig(m, cont):
     args = args.replace("* a", "*a")
     ret = RET_TYPES[m["ret"]]
     sep = "" if ret.endswith("*") else " "
-    return "%s%s(*%s)(%s%s)" % (ret, sep, m["name"], recv, args)
+    one = "%s%s(*%s)(%s%s)" % (ret, sep, m["name"], recv, args)
+    if len("    " + one + ";") <= 100 or not m["args"]:
+        return one
+    # cbindgen's vertical layout for declarations longer than its line_length (100): one parameter per line, aligned
+    # under the first one
+    head = "%s%s(*%s)(" % (ret, sep, m["name"])
+    pad = " " * (4 + len(head))
+    parts = [recv] + [a.strip() for a in args.split(", ") if a.strip()]
+    return head + (",\n" + pad).join(parts) + ")"
 
 
 def synth(model):
@@ -603,6 +615,21 @@ static void test_helper_collect_static(void) {
     for (size_t k = 0; k < cb.size; k++) CHECK(store[k] == 100 + k, "static collect: items in order");
 }
 """)
+        o.append("""static void test_helper_collect_dynamic(void) {
+    /* the growing collector accepts every item (here: across its first growth at 64 items) and keeps them in order */
+    struct CollectBase cb = { 0, 0, 0 };
+    for (uint32_t k = 0; k < 66; k++) {
+        uint32_t v = 1000 + k;
+        bool more = cb_collect_dynamic_base(&cb, sizeof(uint32_t), &v);
+        CHECK(more, "dynamic collect: never asks to stop while memory is available");
+    }
+    CHECK(cb.size == 66 && cb.capacity >= 66, "dynamic collect: holds every offered item");
+    ND(size_t, hd_i); ASSUME(hd_i < 66);
+    CHECK(((uint32_t *) cb.buf)[hd_i] == 1000 + hd_i, "dynamic collect: items in order");
+    free(cb.buf);
+}
+""")
+        tests.append(("test_helper_collect_dynamic", "helper cb_collect_dynamic_base", "cb_collect_dynamic_base"))
         tests.append(("test_helper_buf_iter", "helper buf_iter_next", "buf_iter_next"))
         tests.append(("test_helper_collect_static", "helper cb_collect_static_base", "cb_collect_static_base"))
     o.append("int main(void) {\n    ND(unsigned, which);\n    switch (which) {\n")
@@ -618,7 +645,7 @@ static void test_helper_collect_static(void) {
 
 def run_cbmc(cpath, mdir):
     t0 = time.time()
-    rc, out = sh(["cbmc", cpath, "--unwind", "65", "--unwinding-assertions", "--pointer-check", "--bounds-check",
+    rc, out = sh(["cbmc", cpath, "--unwind", "70", "--unwinding-assertions", "--pointer-check", "--bounds-check",
                   "--no-malloc-may-fail", "--trace", "--object-bits", "12"], cwd=mdir, timeout=900)
     open(os.path.join(mdir, "cbmc.log"), "w").write(out)
     res = {"rc": rc, "secs": time.time() - t0, "props": 0, "failed": [], "out": out}
@@ -679,7 +706,7 @@ def helper_checks(which="helpers"):
     open(cpath, "w").write(hsrc)
     res = run_cbmc(cpath, mdir)
     if which == "helpers":
-        helper = [f for f in res["failed"] if f["desc"].startswith(("buffer iterator", "static collect")) or "buf_iter_next" in f["id"]
+        helper = [f for f in res["failed"] if f["desc"].startswith(("buffer iterator", "static collect", "dynamic collect")) or "buf_iter_next" in f["id"]
                   or "cb_collect" in f["id"]]
     else:   # "drop": the *_drop helpers and the ctx_arc_clone / ctx_arc_drop / cont_box_drop snippets they use
         helper = [f for f in res["failed"] if "drop helper" in f["desc"]]
